@@ -146,9 +146,10 @@ class CheckCtx:
             print(line, flush=True)
 
     def report_violation(self, what, witness):
-        os.makedirs(os.path.join(VERIF, "replays", self.prop), exist_ok=True)
+        rdir = os.path.join(os.environ.get("VERIF_EVIDENCE_DIR") or os.path.join(VERIF, "replays"), self.prop)
+        os.makedirs(rdir, exist_ok=True)
         n = len(self.violations)
-        path = os.path.join(VERIF, "replays", self.prop, "%s-%d.json" % (self.tier, n))
+        path = os.path.join(rdir, "%s-%d.json" % (self.tier, n))
         with open(path, "w") as f:
             json.dump({"property": self.prop, "what": what, "witness": witness}, f, indent=1, default=str)
         self.violations.append((what, path))
@@ -198,8 +199,9 @@ class CheckCtx:
             "coverage": cov, "assumptions": self.assumptions, "wall_s": round(time.time() - self.t0, 2),
             "violations": len(self.violations),
         }
-        os.makedirs(os.path.join(VERIF, "evidence"), exist_ok=True)
-        p = os.path.join(VERIF, "evidence", self.prop + ".json")
+        evdir = os.environ.get("VERIF_EVIDENCE_DIR") or os.path.join(VERIF, "evidence")
+        os.makedirs(evdir, exist_ok=True)
+        p = os.path.join(evdir, self.prop + ".json")
         with open(p + ".tmp", "w") as f:
             json.dump(ev, f, indent=1, default=str)
         os.replace(p + ".tmp", p)
